@@ -113,6 +113,7 @@ Definition ev_eq (a b : ev) : Prop :=
   | EvTempo p1 t1 q1, EvTempo p2 t2 q2 => p1 = p2 /\ (t1 == t2)%Q /\ (q1 == q2)%Q
   | EvTime n1 d1 t1, EvTime n2 d2 t2 => n1 = n2 /\ d1 = d2 /\ (t1 == t2)%Q
   | EvKey k1 m1 t1, EvKey k2 m2 t2 => k1 = k2 /\ m1 = m2 /\ (t1 == t2)%Q
+  | EvChord t1 f1, EvChord t2 f2 => (t1 == t2)%Q /\ f1 = f2
   | _, _ => False
   end.
 
@@ -124,6 +125,7 @@ Definition ev_eqb (a b : ev) : bool :=
   | EvTempo p1 t1 q1, EvTempo p2 t2 q2 => (p1 =? p2) && Qeq_bool t1 t2 && Qeq_bool q1 q2
   | EvTime n1 d1 t1, EvTime n2 d2 t2 => (n1 =? n2) && (d1 =? d2) && Qeq_bool t1 t2
   | EvKey k1 m1 t1, EvKey k2 m2 t2 => (k1 =? k2) && (m1 =? m2) && Qeq_bool t1 t2
+  | EvChord t1 f1, EvChord t2 f2 => Qeq_bool t1 t2 && str_eqb f1 f2
   | _, _ => false
   end.
 Fixpoint evs_eqb (a b : list ev) : bool :=
@@ -136,6 +138,25 @@ Fixpoint evs_eqb (a b : list ev) : bool :=
 Definition is_nt (e : ev) : bool := match e with EvNote _ _ _ _ _ _ _ _ _ _ | EvTempo _ _ _ => true | _ => false end.
 Definition is_key (e : ev) : bool := match e with EvKey _ _ _ => true | _ => false end.
 Definition is_time (e : ev) : bool := match e with EvTime _ _ _ => true | _ => false end.
+Definition is_chord (e : ev) : bool := match e with EvChord _ _ => true | _ => false end.
+
+(** * Chord symbols: the figure (a function of the <harmony> element and of the
+    transposition in force only) at the cursor, moved by <offset> divisions. *)
+Definition chord_ev (r : list tok) (t : tok) : list ev :=
+  match t with
+  | THarmony root kind degs bass offset =>
+      match harmony_figure (transp_at r) root kind degs bass with
+      | Some fig =>
+          [EvChord (match offset with
+                    | None => cursor qpm_at r
+                    | Some o => (cursor qpm_at r + secs_at qpm_at r o)%Q
+                    end) fig]
+      | None => []
+      end
+  | _ => []
+  end.
+Fixpoint chords_from (r : list tok) (ts : list tok) : list ev :=
+  match ts with [] => [] | t :: ts' => chord_ev r t ++ chords_from (t :: r) ts' end.
 
 (** * Keys *)
 
